@@ -31,6 +31,11 @@ def cfg_fn(rng, ctx):
     c = gen.Cfg(depth=depth, kinds=KINDS, root=root)
     if root == "Vmap":
         c.weights = {"Mask": 6.0}
+    elif rng.random() < 0.35:
+        # a mask around vectorised masks (vmap / repeat of a masked call): inner flags are arrays
+        # (needs three levels below the root: mask -> vmap -> mask -> distribution)
+        c = gen.Cfg(depth=3, kinds=["Dist", "Vmap", "Repeat", "Mask", "Static"], root=root, max_stmts=2)
+        c.weights = {"Vmap": 4.0, "Repeat": 1.0, "Mask": 4.0, "Static": 1.0, "Dist": 1.0}
     return c
 
 
